@@ -15,7 +15,7 @@ PanicError) | `unmodelled` | `oracle-miss` (the model asked the library somethin
 the harness had not recorded — a disagreement about which call is made).
 -/
 import Driver.Util
-import CtyModel.Stdlib.Glue
+import CtyModel.Stdlib.Format
 open CtyModel CtyModel.Stdlib
 
 namespace HStdNum
@@ -121,6 +121,10 @@ def libOf (t : Table) (alt : Bool) : Lib where
     match (look t ["csvAll", s, toString n]).bind decCsv with
     | some r => r
     | none => ⟨[], alt⟩
+  fmtInt v i := strOf alt (look t ["fmtInt", v, toString i])
+  fmtFloat v x := strOf alt (look t ["fmtFloat", v, toString x.toSexp])
+  textG x := strOf alt (look t ["textG", toString x.toSexp])
+  jsonStr s := strOf alt (look t ["jsonStr", s])
 
 end HStdNum
 
@@ -160,7 +164,7 @@ def handleStdNum : Handler := fun op args =>
     let len ← Sexp.decInt len
     pure (toString (Sexp.list ((substrClusters cs off len).map Sexp.encStr)))
   | "std.glue", [.atom name, .list as, .list es] => do
-    let f ← glueImpl name
+    let f ← (if name == "format" then some formatImpl else glueImpl name)
     let as ← as.mapM Value.ofSexp
     let t ← es.mapM decEntry
     let r1 := implRes (f (libOf t false) as)
